@@ -182,14 +182,14 @@ func (m *monitor) focusedFamilies() []family {
 		return m.letter(preferred, func(v info) bool { return v.gclass() == c })
 	}
 	return []family{
-		{name: "numeric", maxLen: q(5, 7), hashLen: 4, alphabet: compact(nu, m.lb('/', uax14.SY), m.lb(',', uax14.IS), m.lb('}', uax14.CL),
+		{name: "numeric", maxLen: q(5, 6), hashLen: 4, alphabet: compact(nu, m.lb('/', uax14.SY), m.lb(',', uax14.IS), m.lb('}', uax14.CL),
 			m.lb(')', uax14.CP), m.lb('$', uax14.PR), m.lb('%', uax14.PO), m.lb('(', uax14.OP), m.lb('-', uax14.HY), cm, sp, al)},
 		{name: "spaces", maxLen: q(5, 7), hashLen: 4, alphabet: compact(sp, cm, zwj, m.lb('(', uax14.OP), m.lb('"', uax14.QU), m.lb('}', uax14.CL),
 			m.lb(0x3005, uax14.NS), m.lb(0x2014, uax14.B2), m.lb(0x200B, uax14.ZW), al)},
-		{name: "regional", maxLen: q(7, 10), hashLen: 5, alphabet: compact(ri, cm, zwj, al, sp)},
-		{name: "emoji", maxLen: q(6, 8), hashLen: 4, alphabet: compact(extPict, extPictCn, m.lb(0x1F466, uax14.EB), m.lb(0x1F3FB, uax14.EM),
+		{name: "regional", maxLen: q(7, 9), hashLen: 5, alphabet: compact(ri, cm, zwj, al, sp)},
+		{name: "emoji", maxLen: q(6, 7), hashLen: 4, alphabet: compact(extPict, extPictCn, m.lb(0x1F466, uax14.EB), m.lb(0x1F3FB, uax14.EM),
 			m.letter(0xFE0F, func(v info) bool { return v.gclass() == uax29.GExtend && v.lclass() == uax14.CM }), zwj, al, m.lb(0x00A9, uax14.AL))},
-		{name: "wordmid", maxLen: q(4, 6), hashLen: 4, alphabet: compact(wb('a', uax29.WALetter), wb(0x05D0, uax29.WHebrew), wb(':', uax29.WMidLetter),
+		{name: "wordmid", maxLen: q(4, 5), hashLen: 4, alphabet: compact(wb('a', uax29.WALetter), wb(0x05D0, uax29.WHebrew), wb(':', uax29.WMidLetter),
 			wb(',', uax29.WMidNum), wb('.', uax29.WMidNumLet), wb('\'', uax29.WSingleQuote), wb('"', uax29.WDoubleQuote), wb('1', uax29.WNumeric),
 			wb(0x0301, uax29.WExtend), wb(0x200D, uax29.WZWJ), wb('_', uax29.WExtendNumLet), wb(0x30A2, uax29.WKatakana),
 			m.letter(0x65E5, func(v info) bool { return v.wclass() == uax29.WOther && v.inWord() }), wb('\n', uax29.WLF), wb(' ', uax29.WSegSpace))},
@@ -475,19 +475,17 @@ func Main() {
 		)
 	} else {
 		sources = append(sources,
-			m.sampledTuples("sampled/line5", t.lineReps, 5, 5, 8000000),
-			m.sampledTuples("sampled/joint4", t.jointRep, 4, 4, 4000000),
+			m.sampledTuples("sampled/line5", t.lineReps, 5, 5, 4000000),
+			m.sampledTuples("sampled/joint4", t.jointRep, 4, 4, 2000000),
 		)
 	}
 	// (2) deeper exhaustive enumeration over small alphabets around one rule family each
 	var famNotes []string
 	for _, f := range m.focusedFamilies() {
 		sources = append(sources, m.familySource(f))
-		if !run.Thorough() {
-			// beyond the exhaustive length: sampled strings over the same alphabet, up to 3 runes longer
-			if n := map[string]int{"numeric": 400000, "spaces": 300000, "regional": 100000, "wordmid": 300000}[f.name]; n > 0 {
-				sources = append(sources, m.sampledTuples("sampled/"+f.name, f.alphabet, f.maxLen+1, f.maxLen+3, n))
-			}
+		// beyond the exhaustive length: sampled strings over the same alphabet, up to 3 runes longer
+		if n := map[string]int{"numeric": 400000, "spaces": 300000, "regional": 100000, "wordmid": 300000}[f.name]; n > 0 {
+			sources = append(sources, m.sampledTuples("sampled/"+f.name, f.alphabet, f.maxLen+1, f.maxLen+3, run.Pick(n, 8*n)))
 		}
 		famNotes = append(famNotes, fmt.Sprintf("%s: %d letters [%s], length<=%d, %d strings", f.name, len(f.alphabet), hexRunes(f.alphabet), f.maxLen, f.total()))
 	}
@@ -541,11 +539,11 @@ func Main() {
 
 	// (4) random strings up to length 64, biased towards SP/CM/ZWJ/NU/RI and the other context classes
 	tg := m.newTextGen(pool)
-	sources = append(sources, source{name: "random", n: run.Pick(400000, 6000000), chunk: 64, hashLen: -1,
+	sources = append(sources, source{name: "random", n: run.Pick(400000, 3000000), chunk: 64, hashLen: -1,
 		text: func(i int, _ []rune) []rune { return tg.text(gen.New(run.Seed, "C06/random", i)) }})
 
 	// (5) reuse histories: one Segmenter, texts of very different lengths (empty ones included) in all orders
-	sources = append(sources, source{name: "reuse-histories", n: run.Pick(200000, 2000000), chunk: 6, hashLen: -1,
+	sources = append(sources, source{name: "reuse-histories", n: run.Pick(200000, 1000000), chunk: 6, hashLen: -1,
 		text: func(i int, _ []rune) []rune {
 			r := gen.New(run.Seed, "C06/reuse", i)
 			switch r.Intn(6) {
@@ -647,11 +645,11 @@ func Main() {
 	level.Rule = "cases: (1) every string of class representatives (one rune per distinguishable class tuple, found by scanning all code points) up to the per-family length, " +
 		"(2) every string over 8 focused alphabets (numeric, spaces, regional indicators, emoji, word-medial, hangul, mandatory breaks, widths) up to length 4-10, " +
 		"(3) real text (samples in 25 scripts, corpus texts, upstream shaping inputs, conformance lines, windows and concatenations), (4) random strings <= 64 runes biased to SP/CM/ZWJ/NU/RI, " +
-		"(5) reuse histories; in the quick tier (1)-(2) are continued by sampled strings 1-3 runes longer. Every case is judged for line, grapheme and word laws independently on a fresh Segmenter; " +
+		"(5) reuse histories; (1)-(2) are continued by sampled strings 1-3 runes longer. Every case is judged for line, grapheme and word laws independently on a fresh Segmenter; " +
 		"every case of (3)-(5) and every 4th case of (1)-(2) is also run on a Segmenter reused across the preceding cases of its chunk and must give the same segments. " +
 		"non-trivial = some interior position is decided by a rule other than LB31/GB999/WB999 in the reference; distinct_nontrivial counts hashes of non-trivial strings of streams (3)-(5) and of tuples up to length 3-5 " +
 		"(longer exhaustive tuples are distinct by construction and are counted in classes nontrivial:*, not hashed)"
-	level.Floor = run.Pick(300000, 3000000)
+	level.Floor = run.Pick(300000, 2000000)
 	run.Finish(level)
 }
 
